@@ -153,16 +153,25 @@ func (b *builder) value(typ string, v reflect.Value) ([]byte, error) {
 		return d, nil
 	case typ == "bytes" || typ == "string":
 		n := 0
+		isNil := false
 		if b.longLen >= 0 && !b.usedLong {
 			b.usedLong = true
 			n = b.longLen
 		} else {
-			n = bytesLens[c.Choose(len(bytesLens))]
+			k := c.Choose(len(bytesLens) + 1)
+			if k == len(bytesLens) {
+				isNil = true // the empty byte string as Go programs usually hold it: a nil slice
+			} else {
+				n = bytesLens[k]
+			}
 		}
 		d := b.pattern(n)
 		switch v.Kind() {
 		case reflect.Slice:
 			v.SetBytes(append([]byte{}, d...))
+			if isNil {
+				v.Set(reflect.Zero(v.Type()))
+			}
 		case reflect.String:
 			v.SetString(string(d))
 		default:
@@ -178,7 +187,11 @@ func (b *builder) value(typ string, v reflect.Value) ([]byte, error) {
 		return rtl.Bool(x), nil
 	case strings.HasPrefix(typ, "vector "):
 		el := strings.TrimSpace(strings.TrimPrefix(typ, "vector "))
-		n := []int{1, 0, 2, 3}[c.Choose(4)]
+		n := []int{1, 0, 2, 3, -1}[c.Choose(5)]
+		isNil := n < 0 // the empty vector as a nil slice
+		if isNil {
+			n = 0
+		}
 		if v.Kind() != reflect.Slice {
 			return nil, fmt.Errorf("schema vector but Go type %v", v.Type())
 		}
@@ -192,6 +205,9 @@ func (b *builder) value(typ string, v reflect.Value) ([]byte, error) {
 			out = append(out, eb...)
 		}
 		v.Set(s)
+		if isNil {
+			v.Set(reflect.Zero(v.Type()))
+		}
 		return out, nil
 	}
 	if d := b.e.schema.Constructor(typ); d != nil && !d.Func {
